@@ -322,6 +322,20 @@ pub fn verify_dir(case: &DirCase, inst: &Installed, pack: &Arc<jbk::reader::Dire
     if pack.get_free_data() != &want_free[..] {
         bad!("free-data", format!("DirectoryPack::get_free_data() = {} but {} was given", util::brief(pack.get_free_data()), util::brief(&want_free)), json!({}));
     }
+    // indexes by number: created in the order of the case
+    for (n, ix) in case.indexes.iter().enumerate() {
+        match pack.get_index((n as u32).into()) {
+            Ok(i) => {
+                if (i.offset().into_u32(), i.count().into_u32(), i.get_store_id().into_u32() as usize) != (ix.offset, ix.count, ix.store) {
+                    bad!("index-by-number", format!("get_index({n}) exposes offset {} count {} store {}, index {} was declared {} {} {}", i.offset().into_u32(), i.count().into_u32(), i.get_store_id().into_u32(), ix.name, ix.offset, ix.count, ix.store), json!({}));
+                }
+            }
+            Err(e) => {
+                let e = e.to_string();
+                bad!("read-error", e, format!("get_index({n}): {e}"), json!({"api": "get_index"}));
+            }
+        }
+    }
     for ix in &case.indexes {
         let index = match pack.get_index_from_name(&ix.name) {
             Ok(Some(i)) => i,
@@ -341,6 +355,10 @@ pub fn verify_dir(case: &DirCase, inst: &Installed, pack: &Arc<jbk::reader::Dire
                 format!("index {} exposes offset {} count {}, declared {} {}", ix.name, index.offset().into_u32(), index.count().into_u32(), ix.offset, ix.count),
                 json!({})
             );
+            continue;
+        }
+        if index.size().into_u32() != ix.count || index.is_empty() != (ix.count == 0) {
+            bad!("index-window", format!("index {}: size() {} / is_empty() {} for a declared count of {}", ix.name, index.size().into_u32(), index.is_empty(), ix.count), json!({}));
             continue;
         }
         if index.get_store_id().into_u32() as usize != ix.store {
